@@ -16,6 +16,15 @@
 (* valShares/valTokens are the part of the real validator contributed by   *)
 (* the modelled delegators (the genesis self-delegation is subtracted).    *)
 (*                                                                         *)
+(* FRACTIONAL SHARES (family "tenth"): the world is built with validator   *)
+(* v1 already slashed by 10% and one model unit = ONE base unit (1e-18 FX  *)
+(* / one whole share).  A token then buys 1.111111111111111111 shares.     *)
+(* Every share quantity is the pair (shares, frac) standing for            *)
+(*      shares + frac * 0.111111111111111111                               *)
+(* (frac[d][v], valFrac[v]; fden[v] = fractions issued per token).  Whole  *)
+(* numbers of shares are transferable, the fraction stays with its owner.  *)
+(* In all other families frac, valFrac and fden are constantly 0.          *)
+(*                                                                         *)
 (* inv, pay, drain, exact are OBSERVATION registers: the harness evaluates *)
 (* the SDK's registered crisis invariants, the reward pay-out equation of  *)
 (* the last step and the "everybody withdraws and fully undelegates" drain *)
@@ -30,20 +39,23 @@ EXTENDS Integers, Sequences, FiniteSets, TLC, Json
 
 CONSTANTS Delegator,   \* set of strings
           Validator,   \* set of strings
-          TokAmt,      \* token amounts (units) for delegate / undelegate / redelegate
+          TokAmt,      \* token amounts (units) for delegate
+          UndAmt,      \* token amounts (units) for undelegate / redelegate
           ShareAmt,    \* share amounts (units) for transfer / transferFrom
           AllowAmt,    \* allowance values for approve
           Spender,     \* subset of Delegator: accounts that are approved / sign transferFrom
           Slashable,   \* subset of Validator: validators the environment may slash
           InitShares,  \* [Delegator -> [Validator -> Nat]] delegations made while building the world
+          InitFden,    \* [Validator -> Nat] 1 for a validator slashed by 10% while building the world, else 0
           Cap,         \* [kind -> Nat] bound on accepted operations per kind
           MaxSteps     \* bound on accepted operations in total
 
 VARIABLES shares, valShares, valTokens, den, allow, accrued, recv, ubd, inv, pay, drain, exact,
+          frac, valFrac, fden,
           cnt,  \* bounding counters [kind -> Nat]
           op    \* the operation just attempted: [name, d, v, w, f, t, n, res]
 
-svars == <<shares, valShares, valTokens, den, allow, accrued, recv, ubd, inv, pay, drain, exact, cnt>>
+svars == <<shares, valShares, valTokens, den, allow, accrued, recv, ubd, inv, pay, drain, exact, frac, valFrac, fden, cnt>>
 vars  == <<svars, op>>
 
 None == "none"
@@ -51,7 +63,8 @@ Kinds == {"del", "und", "red", "wd", "app", "xfer", "xfrom", "tick", "slash"}
 
 Abs == [shares |-> shares, valShares |-> valShares, valTokens |-> valTokens, den |-> den,
         allow |-> allow, accrued |-> accrued, recv |-> recv, ubd |-> ubd,
-        inv |-> inv, pay |-> pay, drain |-> drain, exact |-> exact]
+        inv |-> inv, pay |-> pay, drain |-> drain, exact |-> exact,
+        frac |-> frac, valFrac |-> valFrac, fden |-> fden]
 
 RECURSIVE SumSet(_, _)
 SumSet(S, f) == IF S = {} THEN 0 ELSE LET x == CHOOSE y \in S : TRUE IN f[x] + SumSet(S \ {x}, f)
@@ -72,12 +85,17 @@ Init ==
   /\ recv = [d \in Delegator |-> [v \in Validator |-> FALSE]]
   /\ ubd = [d \in Delegator |-> [v \in Validator |-> 0]]
   /\ inv = "ok" /\ pay = "ok" /\ drain = "ok" /\ exact = "ok"
+  /\ frac = [d \in Delegator |-> [v \in Validator |-> 0]]
+  /\ valFrac = [v \in Validator |-> 0]
+  /\ fden = InitFden
   /\ cnt = [k \in Kinds |-> 0]
   /\ op = Op("Init", None, None, None, None, None, 0, "ok")
 
 Rej(o) == /\ op' = [o EXCEPT !.res = "rej"] /\ UNCHANGED svars
 Count(k) == cnt' = [cnt EXCEPT ![k] = @ + 1]
 Obs == UNCHANGED <<inv, pay, drain, exact>>
+NoFrac == UNCHANGED <<frac, valFrac, fden>>
+Has(d, v) == shares[d][v] > 0 \/ frac[d][v] > 0    \* d has a delegation at v
 
 ---------------------------------------------------------------------------
 (* delegateV2(v, n tokens): the delegators are funded amply, so only the   *)
@@ -90,11 +108,14 @@ Delegate(d, v, n) ==
      /\ shares' = [shares EXCEPT ![d][v] = @ + n * den[v]]
      /\ valShares' = [valShares EXCEPT ![v] = @ + n * den[v]]
      /\ valTokens' = [valTokens EXCEPT ![v] = @ + 2 * n]
+     /\ frac' = [frac EXCEPT ![d][v] = @ + n * fden[v]]
+     /\ valFrac' = [valFrac EXCEPT ![v] = @ + n * fden[v]]
      /\ accrued' = [accrued EXCEPT ![d][v] = FALSE]
      /\ Count("del") /\ op' = this /\ Obs
-     /\ UNCHANGED <<den, allow, recv, ubd>>
+     /\ UNCHANGED <<den, fden, allow, recv, ubd>>
 
-(* undelegateV2(v, n tokens): needs n*den shares. *)
+(* undelegateV2(v, n tokens): needs n*den shares.  (Not offered on a       *)
+(* validator with fractional rate: UndAmt = {} in that family.)            *)
 Undelegate(d, v, n) ==
   LET this == Op("Undelegate", d, v, None, None, None, n, "ok")
       okk  == n > 0 /\ shares[d][v] >= n * den[v]
@@ -104,7 +125,7 @@ Undelegate(d, v, n) ==
      /\ valTokens' = [valTokens EXCEPT ![v] = @ - 2 * n]
      /\ ubd' = [ubd EXCEPT ![d][v] = @ + n]
      /\ accrued' = [accrued EXCEPT ![d][v] = FALSE]
-     /\ Count("und") /\ op' = this /\ Obs
+     /\ Count("und") /\ op' = this /\ Obs /\ NoFrac
      /\ UNCHANGED <<den, allow, recv>>
 
 (* redelegateV2(v -> w, n tokens): refused for v = w, for insufficient     *)
@@ -119,23 +140,23 @@ Redelegate(d, v, w, n) ==
      /\ valTokens' = [valTokens EXCEPT ![v] = @ - 2 * n, ![w] = @ + 2 * n]
      /\ recv' = [recv EXCEPT ![d][w] = TRUE]
      /\ accrued' = [accrued EXCEPT ![d][v] = FALSE, ![d][w] = FALSE]
-     /\ Count("red") /\ op' = this /\ Obs
+     /\ Count("red") /\ op' = this /\ Obs /\ NoFrac
      /\ UNCHANGED <<den, allow, ubd>>
 
 (* withdraw(v): needs a delegation. *)
 Withdraw(d, v) ==
   LET this == Op("Withdraw", d, v, None, None, None, 0, "ok")
-      okk  == shares[d][v] > 0
+      okk  == Has(d, v)
   IN IF ~okk THEN Rej(this) ELSE
      /\ accrued' = [accrued EXCEPT ![d][v] = FALSE]
-     /\ Count("wd") /\ op' = this /\ Obs
+     /\ Count("wd") /\ op' = this /\ Obs /\ NoFrac
      /\ UNCHANGED <<shares, valShares, valTokens, den, allow, recv, ubd>>
 
 (* approveShares(v, spender, n): sets the allowance, whatever the owner holds. *)
 Approve(o, v, s, n) ==
   LET this == Op("Approve", o, v, None, o, s, n, "ok")
   IN /\ allow' = [allow EXCEPT ![v][o][s] = n]
-     /\ Count("app") /\ op' = this /\ Obs
+     /\ Count("app") /\ op' = this /\ Obs /\ NoFrac
      /\ UNCHANGED <<shares, valShares, valTokens, den, accrued, recv, ubd>>
 
 \* what a transfer of n shares of v from f needs / does (to oneself: nothing)
@@ -151,7 +172,7 @@ Transfer(f, v, t, n) ==
   LET this == Op("Transfer", f, v, None, f, t, n, "ok")
   IN IF ~XferOk(f, v, n) THEN Rej(this) ELSE
      /\ XferEff(f, t, v, n)
-     /\ Count("xfer") /\ op' = this /\ Obs
+     /\ Count("xfer") /\ op' = this /\ Obs /\ NoFrac
      /\ UNCHANGED allow
 
 (* transferFromShares(v, from, to, n shares) signed by spender s. *)
@@ -160,30 +181,31 @@ TransferFrom(s, v, f, t, n) ==
   IN IF ~(allow[v][f][s] >= n /\ XferOk(f, v, n)) THEN Rej(this) ELSE
      /\ XferEff(f, t, v, n)
      /\ allow' = [allow EXCEPT ![v][f][s] = @ - n]
-     /\ Count("xfrom") /\ op' = this /\ Obs
+     /\ Count("xfrom") /\ op' = this /\ Obs /\ NoFrac
 
 (* a block that allocates rewards to both validators. *)
 RewardTick ==
   LET this == Op("RewardTick", None, None, None, None, None, 0, "ok")
-  IN /\ accrued' = [d \in Delegator |-> [v \in Validator |-> shares[d][v] > 0]]
-     /\ Count("tick") /\ op' = this /\ Obs
+  IN /\ accrued' = [d \in Delegator |-> [v \in Validator |-> Has(d, v)]]
+     /\ Count("tick") /\ op' = this /\ Obs /\ NoFrac
      /\ UNCHANGED <<shares, valShares, valTokens, den, allow, recv, ubd>>
 
 (* a new block starts by slashing v by 50% of its power (infraction at     *)
 (* the current height: unbonding entries / redelegations are not touched). *)
 Slash(v) ==
   LET this == Op("Slash", None, v, None, None, None, 0, "ok")
-  IN IF den[v] # 1 THEN Rej(this) ELSE   \* the environment slashes a validator at most once
+  IN IF den[v] # 1 \/ fden[v] # 0 THEN Rej(this) ELSE   \* the environment slashes a validator at most once
      /\ valTokens' = [valTokens EXCEPT ![v] = @ \div 2]
      /\ den' = [den EXCEPT ![v] = @ * 2]
-     /\ Count("slash") /\ op' = this /\ Obs
+     /\ Count("slash") /\ op' = this /\ Obs /\ NoFrac
      /\ UNCHANGED <<shares, valShares, allow, accrued, recv, ubd>>
 
 Probe == op' = Op("Probe", None, None, None, None, None, 0, "ok") /\ UNCHANGED svars
 
 Next ==
-  \/ \E d \in Delegator, v \in Validator, n \in TokAmt : Delegate(d, v, n) \/ Undelegate(d, v, n)
-  \/ \E d \in Delegator, v \in Validator, w \in Validator, n \in TokAmt : Redelegate(d, v, w, n)
+  \/ \E d \in Delegator, v \in Validator, n \in TokAmt : Delegate(d, v, n)
+  \/ \E d \in Delegator, v \in Validator, n \in UndAmt : Undelegate(d, v, n)
+  \/ \E d \in Delegator, v \in Validator, w \in Validator, n \in UndAmt : Redelegate(d, v, w, n)
   \/ \E d \in Delegator, v \in Validator : Withdraw(d, v)
   \/ \E o \in Delegator, v \in Validator, s \in Spender, n \in AllowAmt : Approve(o, v, s, n)
   \/ \E f \in Delegator, v \in Validator, t \in Delegator, n \in ShareAmt : Transfer(f, v, t, n)
@@ -203,10 +225,11 @@ IsXfer(o)  == o.name \in {"Transfer", "TransferFrom"}
 OkXfer(o)  == IsXfer(o) /\ o.res = "ok"
 
 \* every delegator's shares sum to the validator's total shares
-C11_SharesSum == \A v \in Validator : SharesAt(shares, v) = valShares[v]
+C11_SharesSum == \A v \in Validator : SharesAt(shares, v) = valShares[v] /\ SharesAt(frac, v) = valFrac[v]
 
 \* the validator's tokens back its shares at the validator's exchange rate
-C11_StakeBacksShares == \A v \in Validator : valTokens[v] * den[v] = 2 * valShares[v]
+C11_StakeBacksShares == \A v \in Validator : /\ valTokens[v] * den[v] = 2 * valShares[v]
+                                              /\ valTokens[v] * fden[v] = 2 * valFrac[v]
 
 \* a transfer takes exactly n from the sender and gives exactly n to the recipient (to oneself:
 \* nothing changes), touches nobody else, never more than the sender owns, and never changes
@@ -218,6 +241,7 @@ A_C11_TransferConserves ==
       /\ shares' = IF f = t THEN shares ELSE [shares EXCEPT ![f][v] = @ - n, ![t][v] = @ + n]
       /\ valShares' = valShares /\ valTokens' = valTokens /\ den' = den
       /\ ubd' = ubd /\ recv' = recv
+      /\ frac' = frac /\ valFrac' = valFrac /\ fden' = fden   \* fractions of a share stay where they are
 C11_TransferConserves == [][A_C11_TransferConserves]_vars
 
 \* the sender of a transfer must not have an incoming redelegation at that validator
@@ -246,8 +270,9 @@ C11_PaidExactly == pay = "ok"
 A_C11_OnlyStakeOpsMoveStake ==
   /\ op'.res = "rej" => Abs' = Abs
   /\ op'.name \in {"Withdraw", "Approve", "RewardTick"} =>
-        shares' = shares /\ valShares' = valShares /\ valTokens' = valTokens /\ den' = den /\ ubd' = ubd
-  /\ op'.name = "Slash" => shares' = shares /\ valShares' = valShares /\ ubd' = ubd
+        /\ shares' = shares /\ valShares' = valShares /\ valTokens' = valTokens /\ den' = den /\ ubd' = ubd
+        /\ frac' = frac /\ valFrac' = valFrac /\ fden' = fden
+  /\ op'.name = "Slash" => shares' = shares /\ valShares' = valShares /\ ubd' = ubd /\ frac' = frac /\ valFrac' = valFrac
 C11_OnlyStakeOpsMoveStake == [][A_C11_OnlyStakeOpsMoveStake]_vars
 
 \* all registered staking / distribution / bank / gov (crisis) invariants hold on the real state
